@@ -37,10 +37,10 @@ for _k in ("maplist", "setlist"):
 # A call that ends in a panic, abort or time-out (tag OUTCOME, always a C10 matter) also fails to deliver what the
 # property that specifies that call promises: per kind of collection, call -> properties
 _KEYQ = {"lt": ["C01"], "le": ["C01"], "by": ["C01"], "get": ["C06"], "export": ["C07"], "exportn": ["C07", "C19"],
-         "ins": ["C01", "C06"], "bulk": ["C01", "C06"], "clear": ["C01", "C06", "C12"], "empty": ["C01"]}
-_MAPQ = {"drop": ["C04"], "get": ["C04"], "ins": ["C04"], "bulk": ["C04"], "del": ["C04"], "clear": ["C04", "C12"], "empty": ["C04"],
+         "ins": ["C01", "C06"], "bulk": ["C01", "C06"], "clear": ["C01", "C06", "C12", "C11"], "empty": ["C01"]}
+_MAPQ = {"drop": ["C04"], "get": ["C04"], "ins": ["C04"], "bulk": ["C04"], "del": ["C04"], "bulkdel": ["C04"], "clear": ["C04", "C12", "C11"], "empty": ["C04"],
          "fil": ["C08"], "filby": ["C08"], "read": ["C08"], "write": ["C08"], "delh": ["C08"]}
-_SETQ = dict(_MAPQ, get=["C05"], ins=["C05"], bulk=["C05"], clear=["C05", "C12"], empty=["C05"], after=["C09"], before=["C09"])
+_SETQ = dict(_MAPQ, get=["C05"], ins=["C05"], bulk=["C05"], bulkdel=["C05"], clear=["C05", "C12", "C11"], empty=["C05"], after=["C09"], before=["C09"])
 _SETQ["del"] = ["C05"]
 _SETQ["drop"] = ["C05"]
 OUTCOME_OPS = {
@@ -146,7 +146,7 @@ class Ctx:
         assert name not in self.names, f"job name {name} used twice"
         self.names.add(name)
         h = run_harness(coll, driver, params, out, timeout=timeout, raw="raw" in flags)
-        v = tlc_trace(spec_of(coll), out, self.path("meta-" + name))
+        v = tlc_trace(spec_of(coll), out, self.path("meta-" + name), big="bigheap" in flags)
         lines = None
         res = {"name": name, "coll": coll, "driver": driver, "params": params, "events": h["events"], "pairs": h["pairs"],
                "status": h["status"], "accepted": v["accepted"], "nviol": len(v["viols"]), "wall": v["wall"], "trace": out,
@@ -523,6 +523,10 @@ def ord_scale_jobs(ctx, colls, deep=0, faults=0, flags=(), sweeps=True):
             futs.append(ctx.submit(f"sweep-{coll}-{a}", coll, "scale", {"plan": "", "sweep_lo": a, "sweep_hi": b, "seed": ctx.seed}, flags=flags))
         if deep:
             futs.append(ctx.submit(f"deep-{coll}", coll, "scale", {"plan": "", "deep": deep, "seed": ctx.seed}, flags=flags, timeout=600))
+        # thorough tier: 1 150 000 keys (an arena of more than 2^20 slots / 16 MiB), ascending then drained key by
+        # key, descending then cleared, and used again
+        if deep and (not q or ctx.pid in ("C04", "C05")) and kind_of(coll) in ("maptree", "settree") and coll.endswith("-i32"):
+            futs.append(ctx.submit(f"huge-{coll}", coll, "scale", {"plan": "", "deep": 1150000, "seed": ctx.seed}, flags=tuple(flags) + ("bigheap",), timeout=900))
     return futs
 
 
@@ -576,7 +580,7 @@ def plan_key_semantics(ctx):
     futs += random_jobs(ctx, ["keytree"], 1 if q else 3, {"keys": 60, "tspan": 40, "steps": 1500 if q else 8000, "seglen": 500, "clears": 0}, tag="-chain")
     # one step of every kind from every valid tree x every pattern of expired / live nodes
     futs += key_ind_jobs(ctx, 4 if q else 6, 2 if q else 6, limit=120 if q else 3000)
-    futs += key_scale_jobs(ctx, colls, "ABCD", deep=20000 if q else 60000)
+    futs += key_scale_jobs(ctx, colls, "ABCDG", deep=20000 if q else 60000)
     ctx.collect(futs)
     return ctx.finish(
         "model: every history over the key universe and time line (fixpoint, unbounded length); conformance: TLC-generated "
@@ -616,7 +620,7 @@ def plan_ord(ctx, colls):
     futs += random_jobs(ctx, colls, 2 if q else 8, {"keys": 10, "steps": 2500 if q else 12000, "seglen": 90})
     futs += random_jobs(ctx, colls, 1 if q else 3, {"keys": 40, "steps": 1200 if q else 6000, "seglen": 400}, tag="-wide")
     # (quick tier: the deep run belongs to the properties that speak about look-ups, removals and steps)
-    futs += ord_scale_jobs(ctx, colls, deep=300000 if (not q or ctx.pid in ("C04", "C05", "C09")) else 0)
+    futs += ord_scale_jobs(ctx, colls, deep=420000 if (not q or ctx.pid in ("C04", "C05", "C09")) else 0)
     # instance-counting payloads: a value dropped twice, or never, by an entry move, a removal, clear or the drop
     # of the collection shows as a non-zero residue when the instance is dropped (C04 / C05: "never duplicated or lost")
     for cc in sorted({kind_of(c) + "-cnt" for c in colls}):
@@ -681,7 +685,8 @@ def plan_structure(ctx):
     futs += ord_ind_jobs(ctx, ["maptree-i32", "settree-str"] if q else ["maptree-i32", "maptree-str", "settree-i32", "settree-str"],
                          8 if q else 11, 2 if q else 4, limit=100 if q else 4000)
     futs += key_ind_jobs(ctx, 4 if q else 6, 1 if q else 4, limit=60 if q else 2000)
-    futs += ord_scale_jobs(ctx, ["maptree-i32", "settree-str"] if q else ["maptree-i32", "maptree-str", "settree-i32", "settree-str"])
+    futs += ord_scale_jobs(ctx, ["maptree-i32", "settree-str"] if q else ["maptree-i32", "maptree-str", "settree-i32", "settree-str"],
+                           deep=420000 if (not q or ctx.pid == "C11") else 0)
     futs += key_scale_jobs(ctx, ["keytree"])
     trees = ["maptree-i32", "settree-str", "keytree"] if q else ["maptree-i32", "maptree-str", "settree-i32", "settree-str", "keytree"]
     for coll in trees:
@@ -735,7 +740,7 @@ def plan_lists(ctx):
     futs += random_jobs(ctx, ["keylist"], 2 if q else 8, {"keys": 8, "tspan": 5, "steps": 2500 if q else 12000, "seglen": 70})
     futs += ord_scale_jobs(ctx, ORD_LISTS, deep=200000)
     futs += random_jobs(ctx, ["maplist-cnt", "setlist-cnt"], 1 if q else 4, {"keys": 14, "steps": 1500 if q else 8000, "seglen": 80}, tag="-cnt")
-    futs += key_scale_jobs(ctx, ["keylist"], "ABCD", deep=20000 if q else 60000)
+    futs += key_scale_jobs(ctx, ["keylist"], "ABCDG", deep=20000 if q else 60000)
     ctx.collect(futs)
     return ctx.finish(COVER_RULE + "; the lists ship no snapshot: results are checked call by call and the full observable "
                       "contents (get_value of every key of the universe, is_empty) periodically", ASSUME_COMMON)
@@ -752,7 +757,7 @@ def plan_export(ctx):
     futs += random_jobs(ctx, ["keytree", "keylist"], 1 if q else 4, {"keys": 40, "tspan": 12, "steps": 2000 if q else 10000, "seglen": 120}, tag="-wide")
     # export from every valid tree x every pattern of expired / live nodes, at both times
     futs += key_ind_jobs(ctx, 4 if q else 6, 2 if q else 6, limit=120 if q else 3000, export=1)
-    futs += key_scale_jobs(ctx, ["keytree", "keylist"], "ABCD", deep=20000 if q else 60000)
+    futs += key_scale_jobs(ctx, ["keytree", "keylist"], "ABCDG", deep=20000 if q else 60000)
     if ctx.pid == "C19":
         # the sorted list inserts in O(n) per call (descending order: O(n^2) in total), so its sizes stay
         # moderate; the quadratic cost is the list's nature, not something C19 or C10 speak about
@@ -1150,8 +1155,8 @@ def plan_c10(ctx):
     futs += seg_random_jobs(ctx, 1 if q else 3, 800 if q else 5000)
     futs += seg_dense_jobs(ctx)
     # sizes far outside the exhaustive universes: threshold sweeps, clear sweeps, deep bulk runs; every valid small tree
-    futs += ord_scale_jobs(ctx, allord, deep=300000)
-    futs += key_scale_jobs(ctx, ["keytree", "keylist"], "ABCD", deep=20000 if q else 60000)
+    futs += ord_scale_jobs(ctx, allord, deep=420000)
+    futs += key_scale_jobs(ctx, ["keytree", "keylist"], "ABCDG", deep=20000 if q else 60000)
     futs += ord_ind_jobs(ctx, ["maptree-i32", "settree-i32"], 7 if q else 10, 1 if q else 4, limit=60 if q else 3000)
     futs += key_ind_jobs(ctx, 4 if q else 5, 1 if q else 4, limit=60 if q else 2000, export=1)
     futs += layout_jobs(ctx, not q)
